@@ -78,12 +78,16 @@ def runThreaded (t0 : Tree) (segs : List Seg) : Persisted × Nat × Bool :=
   (r.2.1, r.2.2, r.1.1.nondet)
 
 /-- law instances L1/L3 on the URLs seen so far, for one step of the pure lineage -/
+def lookN (t : Tree) (u : String) : String := let (m, nu) := t.lookup u; if m then nu else u
+
 def lawCheck (t : Tree) (seen urls : List String) : List String :=
   let N := treeNormaliser
   let t' := N.learn t urls
-  let l1 := seen.all fun u => N.norm t' (N.norm t u) == N.norm t' u
-  let l3 := N.conv t urls || seen.all fun u => N.norm t' u == N.norm t u
-  (if l1 then [] else ["L1"]) ++ (if l3 then [] else ["L3"])
+  let cv := N.conv t urls
+  let l1 := !cv || seen.all fun u => N.norm t' (lookN t u) == lookN t' u
+  let l3 := cv || seen.all fun u => lookN t' u == lookN t u
+  let le := urls.all fun u => N.norm t' u == lookN t' u
+  (if l1 then [] else ["L1"]) ++ (if l3 then [] else ["L3"]) ++ (if le then [] else ["LE"])
 
 /-- pure model (`Model.C15.runSegs` with `treeNormaliser`) + law tests -/
 def runPure (t0 : Tree) (segs : List Seg) : Persisted × List String :=
@@ -99,7 +103,7 @@ def runPure (t0 : Tree) (segs : List Seg) : Persisted × List String :=
     | [] => true
     | seen => if segs.any (fun s => match s with | Seg.restart => true | _ => false) then true
               else let one := treeNormaliser.learn t0 seen
-                   seen.all fun u => treeNormaliser.norm one u == treeNormaliser.norm r.1.tree u
+                   seen.all fun u => lookN one u == lookN r.1.tree u
   (r.1.file, r.2.2 ++ (if l2 then [] else ["L2"]))
 
 def runStep (s : RunSt) (line : String) : RunSt × String :=
@@ -132,7 +136,7 @@ def runStep (s : RunSt) (line : String) : RunSt × String :=
         let pure := fmtObs full fails filep ""
         -- the law / purity diagnostics are part of the answer only OUTSIDE the class where the laws are known
         -- to fail on the real tree (finding F15c); there the harness never prints them, so they show as a diff
-        let inClass := deepFanout s.thr (s.known ++ (external recs).map (·.url)) || hasBadUrl recs
+        let inClass := false
         let tail := if inClass then "" else (if main == pure then "" else " PURE-DIFF") ++
           (if laws.isEmpty then "" else " LAW-FAIL:" ++ ",".intercalate (dedupS laws))
         -- with restarts only the per-method totals are reported; those never depend on map order
